@@ -61,18 +61,31 @@ MASK_CTX = {'mask_amp_mode': 'ratio_imf', 'ret_mask_freq': False}
 
 
 # ----------------------------------------------------------------------------------------------
-def _ceemd_sites(P, fi):
-    """(loop, starmap call whose worker is _sift_with_noise inside the loop)"""
-    loops = [n for n in walk_local(fi.node) if isinstance(n, ast.While)]
-    out = []
-    for loop in loops:
-        for n in ast.walk(loop):
-            if isinstance(n, ast.Call) and isinstance(n.func, ast.Attribute) and n.func.attr in ('starmap', 'map') \
-                    and n.args:
-                ca = P.resolve_callee(fi.module, fi, n.args[0])
-                if ca.kind == 'repo' and ca.dotted == 'emd.sift._sift_with_noise':
-                    out.append((loop, n))
+def outer_view(env):
+    """Environment as seen from the outermost frame: variables captured from the enclosing function (the evaluator
+    inlines nested functions and keeps the captured variables under 'closure:<name>') override same-named locals."""
+    out = {k: v for k, v in env.items() if not k.startswith('closure:')}
+    for k, v in env.items():
+        if k.startswith('closure:'):
+            out[k[8:]] = v
     return out
+
+
+def _ceemd_records(P, fi, context):
+    """Pool dispatches of the noise worker reached while evaluating fi (helpers and nested functions are inlined, so
+    the dispatch may sit anywhere): [(call node, term, outer-frame env, trace, inside the layer loop?)]."""
+    from .c06 import _decode_fref
+    rec = []
+
+    def obs(node, term, st):
+        if term[0] == 'meth' and term[1] in ('starmap', 'map', 'imap', 'starmap_async', 'map_async') and term[3]:
+            d = _decode_fref(P, term[3][0])
+            if d is not None and d[0] == 'emd.sift._sift_with_noise':
+                inloop = any(':while[' in x for x in st.trace)
+                rec.append((node, term, outer_view(st.env), list(st.trace), inloop))
+    ev = Evaluator(P, observer=obs)
+    exits = ev.run(fi, context=context)
+    return ev, exits, rec
 
 
 def _family_first(t):
@@ -84,25 +97,17 @@ def _family_first(t):
 
 def rule_ceemd_invariant(ctx, rid, fi):
     P = ctx.P
-    sites = _ceemd_sites(P, fi)
-    if len(sites) != 1:
-        raise AnalysisError('%s: expected one noise-assisted extraction dispatch inside the layer loop, found %d'
-                            % (fi.qualname, len(sites)))
-    loop, callnode = sites[0]
     acc = siftcore._return_accumulator(fi)
     x0 = fi.params[0]
-    rec = []
-
-    def obs(node, term, st):
-        if node is callnode:
-            rec.append((term, dict(st.env), list(st.trace)))
-    ev = Evaluator(P, observer=obs)
-    exits = ev.run(fi, context={'noise_mode': 'single'})
+    ev, exits, recs = _ceemd_records(P, fi, {'noise_mode': 'single'})
     ctx.paths += len(exits)
+    rec = [(term, env, trace) for node, term, env, trace, inloop in recs if inloop]
+    if not rec:
+        raise AnalysisError('%s: no noise-assisted extraction dispatch inside the layer loop' % fi.qualname)
+    callnode = [node for node, term, env, trace, inloop in recs if inloop][0]
+    loop = callnode
     alg = mk_algebra()
     X = alg.poly(S(x0))
-    if not rec:
-        raise AnalysisError('%s: dispatch never reached' % fi.qualname)
     n = 0
     for term, env, trace in rec:
         args = term[3][1] if term[0] == 'meth' and len(term[3]) > 1 else None
@@ -189,16 +194,11 @@ def rule_cap_independence(ctx, rid, fi, pred, context):
 
 def rule_cap_independence_ceemd(ctx, rid, fi):
     P = ctx.P
-    sites = _ceemd_sites(P, fi)
-    if len(sites) != 1:
-        raise AnalysisError('%s: expected one dispatch in the layer loop' % fi.qualname)
-    loop, callnode = sites[0]
-    rec = []
-
-    def obs(node, term, st):
-        if node is callnode:
-            rec.append(term)
-    Evaluator(P, observer=obs).run(fi, context={'noise_mode': 'single'})
+    ev, exits, recs = _ceemd_records(P, fi, {'noise_mode': 'single'})
+    rec = [term for node, term, env, trace, inloop in recs if inloop]
+    if not rec:
+        raise AnalysisError('%s: no dispatch in the layer loop' % fi.qualname)
+    callnode = [node for node, term, env, trace, inloop in recs if inloop][0]
     for term in rec:
         occ = _value_occurrences(term, S(CAP))
         if occ:
@@ -287,6 +287,19 @@ def _cap_bound_one(ctx, rid, fi, loop, acc, tag, head_acc, alg, ev, capatom, sum
     back2 = [b for k, b in summ.body_states if k == 'back2']
     if not back2:
         raise AnalysisError('%s: layer loop never repeats' % fi.qualname)
+    # an accumulator that starts as None holds columns after the first layer: later-iteration paths that assume it
+    # is still None are infeasible (every iteration end stores component columns, C03.R6)
+
+    def _assumes_empty(b):
+        for c, truth, ln in b.conds:
+            if c[0] == 'cmp' and c[1] in ('is', 'isnot') and c[2] == head_acc and c[3] == C(None) \
+                    and (c[1] == 'is') == truth:
+                return True
+        return False
+    if all(_initial_blocks(b.env.get(acc)) for b in back1):
+        feasible = [b for b in back2 if not _assumes_empty(b)]
+        if feasible and all(_blocks(b.env.get(acc, head_acc), head_acc) is not None for b in feasible):
+            back2 = feasible
     # counters: +1 on every iteration>=2 body path
     counters = None
     for b in back2:
@@ -356,7 +369,11 @@ def _cap_bound_one(ctx, rid, fi, loop, acc, tag, head_acc, alg, ev, capatom, sum
     # entry guards: pre-loop conditions of the entering paths that mention the cap
     pre = []
     for b in back1:
-        pre.append([(c, truth) for c, truth, ln in b.conds if ln < loop.lineno and capatom in set(subterms(c))])
+        # conditions established before the loop plus the first evaluation of the loop test
+        i = getattr(summ, 'n_entry_conds', 0)
+        while i < len(b.conds) and b.conds[i][2] == loop.lineno:
+            i += 1
+        pre.append([(c, truth) for c, truth, ln in b.conds[:i] if capatom in set(subterms(c))])
     import operator
     OPS = {'==': operator.eq, '>=': operator.ge, '>': operator.gt, '<=': operator.le, '<': operator.lt,
            '!=': operator.ne}
@@ -412,54 +429,74 @@ def _initial_blocks(t):
                 return None
             tot += n
         return tot
-    if t in (('list', ()), ('tuple', ())):
-        return 0
+    if t in (('list', ()), ('tuple', ()), C(None)):
+        return 0            # "no columns yet" (an accumulator that starts as None is replaced by the first component)
     return 1
 
 
 def rule_ensemble_alloc(ctx, rid, fi):
-    """ensemble_sift: the output is allocated with exactly `cap` columns when a cap is given."""
+    """ensemble_sift: on every return path with a cap, the returned array was allocated with `cap` columns or with a
+    width that the path conditions bound by the cap.  Read from the evaluated paths (helpers inlined)."""
+    import re
     P = ctx.P
     ev = Evaluator(P)
     exits = ev.run(fi, context={'noise_mode': 'single'})
     ctx.paths += len(exits)
+    c = 'columns at the cap exit <= cap'
     ok = 0
+    cap = S(CAP)
     for e in exits:
         if e.kind != 'return':
             continue
         capgiven = None
-        for c, truth, ln in e.state.conds:
-            if c[0] == 'cmp' and c[1] == 'is' and c[2] == S(CAP):
-                capgiven = not truth
+        for cd, truth, ln in e.state.conds:
+            if cd[0] == 'cmp' and cd[1] in ('is', 'isnot') and cd[2] == cap and cd[3] == C(None):
+                capgiven = (cd[1] == 'isnot') == truth
         if not capgiven:
             continue
         v = e.value
-        # allocation term: zeros((N, cap)) possibly with setitem updates (havocked after the loop: look into loops)
+        if v[0] == 'tuple' and v[1]:
+            v = v[1][0]
         alloc = None
-        for ls in e.state.loops:
-            for name, t in ls.head_env.items():
-                pass
-        # find the allocation in the effects / env history: search conds-free: scan the function AST
+        if v[0] == 's':
+            m = re.match(r'^(\w+)@([FL]\d+)(post)?$', v[1])
+            if m:
+                for ls in e.state.loops:
+                    t = ls.entry_env.get(m.group(1))
+                    if ('F%d' % ls.node.lineno == m.group(2) or 'L%d' % ls.node.lineno == m.group(2)) and t is not None:
+                        alloc = t
+        elif v[0] == 'call':
+            alloc = v
+        if not (alloc is not None and alloc[0] == 'call' and alloc[1] in ('numpy.zeros', 'numpy.empty', 'numpy.ones',
+                                                                            'numpy.full') and alloc[2]
+                and alloc[2][0][0] == 'tuple' and len(alloc[2][0][1]) == 2):
+            ctx.undecided(rid, fi, c, 'cannot find the output allocation behind the returned value %s' % show(v)[:60],
+                          node=e.node, path=trace_tail(e.state, 8))
+            return
+        w = alloc[2][0][1][1]
+        bounded = w == cap
+        if not bounded:
+            for cd, truth, ln in e.state.conds:
+                if cd[0] != 'cmp' or cd[1] not in ('<', '<=', '>', '>='):
+                    continue
+                op, a, b = (cd[1], cd[2], cd[3])
+                if not truth:
+                    op = {'<': '>=', '<=': '>', '>': '<=', '>=': '<'}[op]
+                if (a == cap and b == w and op in ('>', '>=')) or (a == w and b == cap and op in ('<', '<=')):
+                    bounded = True
+            if w[0] == 'call' and w[1] in ('builtins.min', 'numpy.minimum', 'numpy.min') and cap in w[2]:
+                bounded = True
+        if not bounded:
+            ctx.violation(rid, fi, c, 'ensemble output is allocated with %s columns, which the path does not bound by '
+                          'the cap' % show(w)[:80], node=e.node, expected=CAP, found=show(w)[:120],
+                          path=trace_tail(e.state, 8))
+            return
         ok += 1
-    # structural: the returned array is np.zeros((.., cap)) filled per column
-    ret = siftcore._return_accumulator(fi)
-    allocs = []
-    for n in walk_local(fi.node):
-        if isinstance(n, ast.Assign) and any(isinstance(t, ast.Name) and t.id == ret for t in n.targets) \
-                and isinstance(n.value, ast.Call):
-            d = P.resolve(fi.module, n.value.func, fi)
-            if d in ('numpy.zeros', 'numpy.empty', 'numpy.ones', 'numpy.full') and n.value.args \
-                    and isinstance(n.value.args[0], ast.Tuple) and len(n.value.args[0].elts) == 2:
-                allocs.append(n.value.args[0].elts[1])
-    if len(allocs) != 1:
-        ctx.undecided(rid, fi, 'columns at the cap exit <= cap', 'cannot find the output allocation', node=fi.node)
-        return
-    w = allocs[0]
-    if isinstance(w, ast.Name) and w.id == CAP:
-        ctx.passed(rid, fi, 'columns at the cap exit <= cap', 'output allocated with %s columns' % CAP, node=w)
+    if ok == 0:
+        ctx.undecided(rid, fi, c, 'no return path with a cap found')
     else:
-        ctx.violation(rid, fi, 'columns at the cap exit <= cap', 'ensemble output is allocated with %s columns, not '
-                      'the cap' % unparse(w), node=w, expected=CAP, found=unparse(w))
+        ctx.passed(rid, fi, c, 'output allocated with %s columns, or fewer under a path condition, on %d capped return '
+                   'path(s)' % (CAP, ok))
 
 
 def _is_min_member_cols(t):
